@@ -164,12 +164,17 @@ def run(tier, seed):
     from ..parallel import supervised
     from ..probes import scratch
 
-    def forward_job(inter, xr, rz, vel, gseed):
+    def forward_job(inter, xr, rz, vel, gseed, tolerance=None, max_attempts=None):
         np.random.seed(gseed)
-        obj = LayeredRayTracing2D(inter, np.array([xr]), rz)
+        obj = LayeredRayTracing2D(inter, np.array([xr]), rz, tolerance=tolerance)
         obj.parallel = False
-        tts = np.array(obj.forward(np.array(vel, dtype=float)), dtype=float)
-        angles = np.array(obj.solved_angles, dtype=float)
+        if max_attempts is None:
+            tts = np.array(obj.forward(np.array(vel, dtype=float)), dtype=float)
+            angles = np.array(obj.solved_angles, dtype=float)
+        else:
+            # the public search with a bounded number of refinements, as one uses it for models in which some receivers lie in a shadow zone
+            angles, tts, _ = obj.search_angles(np.array(vel, dtype=float), angles=100, max_attempts=max_attempts)
+            angles, tts = np.array(angles, dtype=float), np.array(tts, dtype=float)
         # every receiver reported as converged is served by a ray: trace the ray of the reported take-off angle again
         rays = []
         for i, a in enumerate(angles):
@@ -208,6 +213,14 @@ def run(tier, seed):
                 rz = rz[::-1].copy()
             elif order == "shuffled":
                 rz = np.array(rnd.sample(rz.tolist(), nrec))
+            job_extra = ()
+            if ci == 3:
+                # corpus: velocity increasing with depth through 20 layers (rays that turn, a shadow zone), serial refinement with few attempts
+                inter = np.linspace(50.0, 1000.0, 20)
+                vel, xr, layered, special = 1200.0 + 1.5 * inter, 800.0, True, "none"
+                rz, order = np.linspace(30.0, 900.0, 30), "shallowest first"
+                n, nrec, v = 20, 30, float(vel[0])
+                job_extra = (2.0, 6)
             if ci == 2:
                 # corpus: receivers listed in an order whose sorting permutation has a cycle of length >= 3 (a sort that is undone by indexing
                 # with the sorting permutation again goes unnoticed for ascending, descending and pairwise-swapped listings)
@@ -230,7 +243,7 @@ def run(tier, seed):
             sf.count("layered" if layered else "homogeneous")
             sf.count(f"special receiver: {special}")
             sf.count("receivers in the deepest layer" if (n == 1 or np.any(rz > inter[-2])) else "receivers above the deepest layer")
-            status, res = supervised(forward_job, (inter, xr, rz, np.asarray(vel).tolist(), rnd.randrange(1 << 30)), timeout=120, tmpdir=tmp)
+            status, res = supervised(forward_job, (inter, xr, rz, np.asarray(vel).tolist(), rnd.randrange(1 << 30)) + job_extra, timeout=120, tmpdir=tmp)
             if status != "ok":
                 if status == "timeout" and (special != "none" or xr > 350.0):
                     # the angle search is not claimed to terminate for every geometry (DESIGN 9.6); delicate depths and long offsets are here for what is *returned*
